@@ -72,7 +72,7 @@ func newKeyGridFixture() *keyGridFixture {
 	add("okp-no-crv", fmt.Sprintf(`{"kty":"OKP","x":%q}`, u(pub)), pub)
 	add("okp-no-x", `{"kty":"OKP","crv":"Ed25519"}`, nil)
 	add("okp-x-not-base64", `{"kty":"OKP","crv":"Ed25519","x":"!!!!"}`, nil)
-	add("okp-x-1MiB", fmt.Sprintf(`{"kty":"OKP","crv":"Ed25519","x":%q}`, u(make([]byte, 1<<20))), make([]byte, 1<<20))
+	add("okp-x-4KiB", fmt.Sprintf(`{"kty":"OKP","crv":"Ed25519","x":%q}`, u(make([]byte, 4096))), make([]byte, 4096))
 	px, py := atk.priv.X.FillBytes(make([]byte, 32)), atk.priv.Y.FillBytes(make([]byte, 32))
 	for _, n := range []int{0, 1, 31, 33, 64} {
 		add(fmt.Sprintf("ec-P256-x%d", n), fmt.Sprintf(`{"kty":"EC","crv":"P-256","x":%q,"y":%q}`, u(rnd(n)), u(py)), nil)
@@ -183,6 +183,10 @@ func keyGridEntries(h *harness) []*entry {
 	}
 	gen := func(algs []string, filter func(keyShape) bool) func(h *harness, e *entry, emit func(input)) {
 		return genV(true, algs, filter)
+	}
+	if !h.r.Thorough() {
+		// quick tier: one algorithm per signature family + "none"; the thorough tier has all of them
+		keyGridAlgs = []string{"EdDSA", "ES256", "ES512", "PS256", "none"}
 	}
 	var entries []*entry
 	// (a) (b) did:jwk, JWT and JWS parsing as every token-verifying component does (crypto/jwx.go)
